@@ -1063,6 +1063,279 @@ func c16Stress(r *c16Runner, seed uint64, variant string) {
 	}
 }
 
+// hammer: many goroutines on ONE key with an instant loader, so that Remove / eviction land inside the
+// few-instruction windows between itemBytes.Store, the CAS and the increment
+func c16Hammer(r *c16Runner, seed uint64, variant string) {
+	w := c16NewWorld(r.ctx)
+	cfg := c16Cfg{variant: variant, cap: 2, shards: 1}
+	if variant == "orch" {
+		cfg.maxb = 150
+	}
+	t := c16NewTarget(cfg, w.store)
+	k := c16Key{0, 2}
+	k2 := c16Key{1, 2}
+	content, content2 := w.fresh[k.num()].ok, w.fresh[k2.num()].ok
+	var wg sync.WaitGroup
+	nG, nOps := 8, vBudget(12000, 40000)
+	for g := 0; g < nG; g++ {
+		wg.Add(1)
+		rg := vNewRand(seed*7919 + uint64(g))
+		go func() {
+			defer wg.Done()
+			for i := 0; i < nOps; i++ {
+				switch x := rg.Intn(100); {
+				case x < 30:
+					_ = t.rc.Put(r.ctx, content.rev, testCollectionID)
+				case x < 60:
+					t.rc.Remove(r.ctx, k.docID(), k.version(), testCollectionID)
+				case x < 80:
+					_, _, _ = t.rc.Get(r.ctx, k.docID(), k.version(), testCollectionID, RevCacheDontLoadBackupRev)
+				case x < 88:
+					_ = t.rc.Upsert(r.ctx, content.rev, testCollectionID)
+				case x < 94:
+					_ = t.rc.Put(r.ctx, content2.rev, testCollectionID)
+				default:
+					t.rc.Remove(r.ctx, k2.docID(), k2.version(), testCollectionID)
+				}
+			}
+		}()
+	}
+	wg.Wait()
+	snap, _ := t.snapshot()
+	r.rec.Count("stress", "hammer:"+variant, fmt.Sprintf("%d|%s", seed, variant), true)
+	in := map[string]any{"variant": variant, "seed": seed, "goroutines": nG, "ops_each": nOps, "keys": "d0@cv, d1@cv"}
+	if t.items.Value() != int64(snap.n) || snap.mapN != snap.n || snap.overCap {
+		r.rec.Fail("items_gauge_exact", "concurrent-items-drift", in, fmt.Sprintf("at rest: items gauge %d, list %d, map %d, overCap=%v", t.items.Value(), snap.n, snap.mapN, snap.overCap))
+	}
+	if t.mem.Value() != snap.sized || !snap.allSized {
+		r.rec.Fail("accounting_all_interleavings", "concurrent-gauge-drift", in, fmt.Sprintf("at rest: bytes gauge %d, cached Sized values sum to %d, allSized=%v", t.mem.Value(), snap.sized, snap.allSized))
+	}
+}
+
+// ---------------------------------------------------------------------------------------------
+// system level: two database contexts ("nodes") on one bucket with tiny revision caches; real writes and
+// reads; every revision served from a node's cache is compared with the bypass loader on that node's own
+// collection; a metadata-only channel change (user xattr, no new revision) must stop being served stale on
+// BOTH nodes once the mutation feed has delivered it (node A: write path, node B: only DocChanged).
+// Also measures the size hypothesis: itemBytes of every cached value vs CalculateBytes of a fresh load.
+// ---------------------------------------------------------------------------------------------
+type c16Node struct {
+	name   string
+	db     *Database
+	ctx    context.Context
+	col    *DatabaseCollectionWithUser
+	bypass *BypassRevisionCache
+}
+
+func c16System(r *c16Runner) {
+	t := r.t
+	defer SuspendSequenceBatching()()
+	tb := base.GetTestBucket(t)
+	defer tb.Close(base.TestCtx(t))
+	const xattrKey = "channels"
+	syncFn := `function (doc, oldDoc, meta){ if (meta.xattrs.channels !== undefined){ channel(meta.xattrs.channels); } else { channel("none"); } }`
+	mk := func(name string, insertOnWrite bool, importing bool) *c16Node {
+		opts := DatabaseContextOptions{UserXattrKey: xattrKey,
+			RevisionCacheOptions: &RevisionCacheOptions{MaxItemCount: 5, ShardCount: 1, MaxBytes: 900, InsertOnWrite: insertOnWrite}}
+		var db *Database
+		var ctx context.Context
+		if importing {
+			db, ctx = setupTestDBWithOptionsAndImport(t, tb.NoCloseClone(), opts)
+		} else { // a node without import: its cache learns of the change only through DocChanged on the feed
+			db, ctx = SetupTestDBForBucketWithOptions(t, tb.NoCloseClone(), opts)
+		}
+		col, ctx := GetSingleDatabaseCollectionWithUser(ctx, t, db)
+		if _, err := col.UpdateSyncFun(ctx, syncFn); err != nil {
+			t.Fatalf("sync fn: %v", err)
+		}
+		bs := map[uint32]RevisionCacheBackingStore{col.GetCollectionID(): col.DatabaseCollection}
+		return &c16Node{name: name, db: db, ctx: ctx, col: col, bypass: NewBypassRevisionCache(bs, &base.SgwIntStat{})}
+	}
+	a, b := mk("A", true, true), mk("B", false, false)
+	defer a.db.Close(a.ctx)
+	defer b.db.Close(b.ctx)
+	nodes := []*c16Node{a, b}
+	served, stale, sizeChecked, sizeMismatch, channelChanges := 0, 0, 0, 0, 0
+
+	// compare what the node's cache serves with a fresh load on the same node
+	compare := func(n *c16Node, docID, version, when string) {
+		cached, cerr := n.col.revisionCache.Get(n.ctx, docID, version, RevCacheDontLoadBackupRev)
+		fresh, _, ferr := n.bypass.Get(n.ctx, docID, version, n.col.GetCollectionID(), RevCacheDontLoadBackupRev)
+		served++
+		in := map[string]any{"node": n.name, "doc": docID, "version": version, "when": when}
+		r.rec.Count("system", "system-get", fmt.Sprintf("%s|%s|%s|%s", n.name, docID, version, when), strings.Contains(when, "xattr"))
+		if (cerr != nil) != (ferr != nil) {
+			r.rec.Fail("get_equals_fresh_load", "system-served-differs-from-storage", in, fmt.Sprintf("cache err=%v, fresh load err=%v", cerr, ferr))
+			return
+		}
+		if cerr != nil {
+			return
+		}
+		pc, _ := c16Project(cached)
+		pf, _ := c16Project(fresh)
+		if pc != pf {
+			stale++
+			r.rec.Fail("stale_dropped_after_feed", "system-served-differs-from-storage", in, fmt.Sprintf("cache serves %s, a fresh load returns %s", pc, pf))
+		}
+	}
+	active := func(n *c16Node, docID, when string) {
+		cached, cerr := n.col.revisionCache.GetActive(n.ctx, docID)
+		fresh, _, ferr := n.bypass.GetActive(n.ctx, docID, n.col.GetCollectionID())
+		served++
+		r.rec.Count("system", "system-getactive", fmt.Sprintf("%s|%s|%s", n.name, docID, when), strings.Contains(when, "xattr"))
+		if (cerr != nil) != (ferr != nil) {
+			r.rec.Fail("get_equals_fresh_load", "system-served-differs-from-storage", map[string]any{"node": n.name, "doc": docID, "when": when}, fmt.Sprintf("GetActive: cache err=%v, fresh err=%v", cerr, ferr))
+			return
+		}
+		if cerr == nil {
+			pc, _ := c16Project(cached)
+			pf, _ := c16Project(fresh)
+			if pc != pf {
+				r.rec.Fail("stale_dropped_after_feed", "system-served-differs-from-storage", map[string]any{"node": n.name, "doc": docID, "when": when}, fmt.Sprintf("GetActive serves %s, fresh %s", pc, pf))
+			}
+		}
+	}
+	// recount of a node's cache + size hypothesis
+	audit := func(n *c16Node, when string) {
+		o, ok := n.db.revisionCache.(*RevisionCacheOrchestrator)
+		if !ok {
+			return
+		}
+		l := o.revisionCache
+		stats := n.db.DbStats.Cache()
+		l.lock.Lock()
+		var sized int64
+		allSized := true
+		type kv struct {
+			doc, ver string
+			bytes    int64
+		}
+		var vals []kv
+		for e := l.lruList.Front(); e != nil; e = e.Next() {
+			v := e.Value.(*revCacheValue)
+			if v.memState.Load() == memStateSized {
+				sized += v.getItemBytes()
+			} else {
+				allSized = false
+			}
+			vals = append(vals, kv{v.itemKey.docID, v.itemKey.docVersion, v.getItemBytes()})
+		}
+		n1, n2, cap := l.lruList.Len(), len(l.cache), int(l.capacity)
+		l.lock.Unlock()
+		in := map[string]any{"node": n.name, "when": when}
+		if n1 > cap {
+			r.rec.Fail("capacity_bound", "system-capacity-exceeded", in, fmt.Sprintf("%d items, capacity %d", n1, cap))
+		}
+		if stats.RevisionCacheNumItems.Value() != int64(n1) || n1 != n2 {
+			r.rec.Fail("items_gauge_exact", "system-items-gauge-drift", in, fmt.Sprintf("gauge %d list %d map %d", stats.RevisionCacheNumItems.Value(), n1, n2))
+		}
+		if stats.RevisionCacheTotalMemory.Value() != sized || !allSized {
+			r.rec.Fail("bytes_gauge_exact", "system-bytes-gauge-drift", in, fmt.Sprintf("gauge %d, cached Sized values sum to %d, allSized=%v", stats.RevisionCacheTotalMemory.Value(), sized, allSized))
+		}
+		if o.memoryController.capacity > 0 && stats.RevisionCacheTotalMemory.Value() > o.memoryController.capacity {
+			r.rec.Fail("memory_bound", "system-over-byte-limit-at-rest", in, fmt.Sprintf("gauge %d limit %d", stats.RevisionCacheTotalMemory.Value(), o.memoryController.capacity))
+		}
+		for _, x := range vals { // the hypothesis of the byte theorem, measured: accounted size = size of a fresh load
+			fresh, _, err := n.bypass.Get(n.ctx, x.doc, x.ver, n.col.GetCollectionID(), RevCacheDontLoadBackupRev)
+			if err != nil {
+				continue
+			}
+			fresh.CalculateBytes()
+			sizeChecked++
+			if fresh.MemoryBytes != x.bytes {
+				sizeMismatch++
+				r.rec.Sample(map[string]any{"size_hypothesis_mismatch": fmt.Sprintf("node %s %s@%s accounted %d, fresh load %d (%s)", n.name, x.doc, x.ver, x.bytes, fresh.MemoryBytes, when)})
+			}
+		}
+	}
+	wait := func() {
+		for _, n := range nodes {
+			n.db.WaitForPendingChanges(t)
+		}
+	}
+
+	// ---- writes on A (write path Puts into A's cache), reads on both ----
+	type docInfo struct{ id, rev, cv string }
+	var docs []docInfo
+	for i := 0; i < 7; i++ {
+		id := fmt.Sprintf("c16sys%d", i)
+		rev, doc, err := a.col.Put(a.ctx, id, Body{"n": i, "pad": strings.Repeat("p", 10*i)})
+		if err != nil {
+			t.Fatalf("put: %v", err)
+		}
+		docs = append(docs, docInfo{id, rev, doc.HLV.GetCurrentVersionString()})
+	}
+	wait()
+	for _, n := range nodes {
+		for _, d := range docs {
+			compare(n, d.id, d.rev, "after write")
+			compare(n, d.id, d.cv, "after write")
+		}
+		for _, d := range docs[:3] {
+			active(n, d.id, "after write")
+		}
+		audit(n, "after write")
+	}
+	// a second revision of some documents (old revision ids / CVs remain requestable)
+	for i := 0; i < 3; i++ {
+		d := docs[i]
+		rev2, doc2, err := a.col.Put(a.ctx, d.id, Body{BodyRev: d.rev, "n": i, "v": 2})
+		if err != nil {
+			t.Fatalf("put2: %v", err)
+		}
+		wait()
+		for _, n := range nodes {
+			compare(n, d.id, rev2, "after update")
+			compare(n, d.id, doc2.HLV.GetCurrentVersionString(), "after update")
+			active(n, d.id, "after update")
+		}
+		docs[i] = docInfo{d.id, rev2, doc2.HLV.GetCurrentVersionString()}
+	}
+	// ---- metadata-only channel change: cache the current revision on both nodes, change the user xattr ----
+	ds := a.col.dataStore
+	for round, ch := range []string{"DEF", "GHI"} {
+		for i := 2; i < 6; i++ {
+			d := docs[i]
+			for _, n := range nodes { // make sure the revision is resident (by revID) on both nodes
+				_, _ = n.col.revisionCache.Get(n.ctx, d.id, d.rev, RevCacheDontLoadBackupRev)
+			}
+			cas, err := ds.Get(a.ctx, d.id, nil)
+			if err != nil {
+				t.Fatalf("get cas: %v", err)
+			}
+			val, _ := json.Marshal(fmt.Sprintf("%s%d", ch, i))
+			if _, err = ds.UpdateXattrs(a.ctx, d.id, 0, cas, map[string][]byte{xattrKey: val}, nil); err != nil {
+				t.Fatalf("update xattr: %v", err)
+			}
+			// the import (on demand here if the feed has not done it yet) re-runs the sync function without a new revision
+			importer := a
+			_ = round
+			if _, err := importer.col.GetDocument(importer.ctx, d.id, DocUnmarshalAll); err != nil {
+				t.Fatalf("import: %v", err)
+			}
+			wait()
+			// the harness's own sanity: same revision id, new channel in storage (otherwise the clause is vacuous)
+			if fr, _, err := importer.bypass.Get(importer.ctx, d.id, d.rev, importer.col.GetCollectionID(), RevCacheDontLoadBackupRev); err != nil || !fr.Channels.Contains(fmt.Sprintf("%s%d", ch, i)) {
+				r.rec.Fail("harness", "system-channel-change-not-effective", map[string]any{"doc": d.id, "rev": d.rev}, fmt.Sprintf("after the user-xattr change a fresh load of the SAME revision gives err=%v channels=%v", err, fr.Channels))
+			} else {
+				channelChanges++
+			}
+			for _, n := range nodes {
+				compare(n, d.id, d.rev, "after user-xattr channel change + feed")
+				active(n, d.id, "after user-xattr channel change + feed")
+			}
+		}
+		for _, n := range nodes {
+			audit(n, "after user-xattr round")
+		}
+	}
+	r.rec.Extra("system_served_compared", served)
+	r.rec.Extra("system_stale", stale)
+	r.rec.Extra("system_metadata_only_channel_changes", channelChanges)
+	r.rec.Extra("system_size_hypothesis_checked", sizeChecked)
+	r.rec.Extra("system_size_hypothesis_mismatches", sizeMismatch)
+}
+
 // ---------------------------------------------------------------------------------------------
 func TestVerifC16(t *testing.T) {
 	rec := vNewRecorder(t, "C16", "C16.C16_Corr")
@@ -1111,7 +1384,7 @@ func TestVerifC16(t *testing.T) {
 
 	// ---- (c) random: structured mostly-valid stream and adversarial stream, spread between the
 	// exhaustive cases (shard balance); the remainder runs after them ----
-	nRandom, nAdv := vBudget(350, 2500), vBudget(250, 1500)
+	nRandom, nAdv := vBudget(260, 2500), vBudget(180, 1500)
 	c16Between = func(idx int) {
 		if idx%3 == 0 && nRandom > 0 {
 			nRandom--
@@ -1155,4 +1428,10 @@ func TestVerifC16(t *testing.T) {
 	for i := 0; i < vBudget(4, 12); i++ {
 		c16Stress(r, vSeed()*131+uint64(i), []string{"orch", "lru", "sharded"}[i%3])
 	}
+	for i := 0; i < 2; i++ {
+		c16Hammer(r, vSeed()*17+uint64(i), []string{"lru", "orch"}[i%2])
+	}
+
+	// ---- (f) system level: real databases, tiny caches, bypass comparison, user-xattr channel change ----
+	c16System(r)
 }
